@@ -40,8 +40,81 @@ def generate():
             else_types = sorted(types_of(node.orelse))
             break
     return consts, branches, else_types, sorted(sf.CMD_NAMES.keys())
+RESPONDERS = ("_send_status", "_response", "_send_packet")
+HELPERS = ("_send_handle_response", "_open_folder", "_read_folder", "_check_file")
+
+
+def path_counts():
+    """For every branch of _process (and the final else): the set of 'number of responder calls' over all control
+    flow paths through the branch (loops: zero or one iteration; for-else and break honoured; helper calls count as
+    one send provided every path through the helper sends exactly once — checked the same way)."""
+    from paramiko.sftp_server import SFTPServer
+    import paramiko.sftp as sf
+
+    def func_ast(name):
+        return ast.parse(textwrap.dedent(inspect.getsource(getattr(SFTPServer, name)))).body[0]
+
+    helper_ok = {}
+
+    def is_self_call(node, names):
+        return (isinstance(node, ast.Expr) and isinstance(node.value, ast.Call)
+                and isinstance(node.value.func, ast.Attribute) and isinstance(node.value.func.value, ast.Name)
+                and node.value.func.value.id == "self" and node.value.func.attr in names)
+
+    def run(stmts, states):
+        # states: set of (count, status) with status in n(ormal) r(eturned) b(roke)
+        for st in stmts:
+            live = {(c, s) for c, s in states if s == "n"}
+            done = states - live
+            if not live:
+                return states
+            if is_self_call(st, RESPONDERS):
+                live = {(c + 1, "n") for c, _ in live}
+            elif is_self_call(st, HELPERS):
+                name = st.value.func.attr
+                if name not in helper_ok:
+                    helper_ok[name] = sorted({c for c, _ in run(func_ast(name).body, {(0, "n")})})
+                live = {(c + (1 if helper_ok[name] == [1] else 99), "n") for c, _ in live}
+            elif isinstance(st, ast.Return):
+                live = {(c, "r") for c, _ in live}
+            elif isinstance(st, ast.Break):
+                live = {(c, "b") for c, _ in live}
+            elif isinstance(st, ast.If):
+                live = run(st.body, set(live)) | run(st.orelse, set(live))
+            elif isinstance(st, (ast.For, ast.While)):
+                once = run(st.body, set(live))
+                broke = {(c, "n") for c, s in once if s == "b"}
+                normal_end = live | {(c, s) for c, s in once if s == "n"}
+                after_else = run(st.orelse, normal_end)
+                live = broke | after_else | {(c, s) for c, s in once if s == "r"}
+            elif isinstance(st, ast.Try):
+                alt = run(st.body, set(live))
+                for h in st.handlers:
+                    alt |= run(h.body, set(live))
+                live = run(st.finalbody, alt) if st.finalbody else alt
+            elif isinstance(st, ast.With):
+                live = run(st.body, set(live))
+            states = done | live
+        return states
+
+    proc = func_ast("_process")
+    node = [n for n in proc.body if isinstance(n, ast.If)][0]
+    consts = {k: getattr(sf, k) for k in dir(sf) if k.startswith("CMD_") and isinstance(getattr(sf, k), int)}
+    out = []
+    while True:
+        cmd = consts[node.test.comparators[0].id]
+        out.append((cmd, sorted({c for c, _ in run(node.body, {(0, "n")})})))
+        if len(node.orelse) == 1 and isinstance(node.orelse[0], ast.If):
+            node = node.orelse[0]
+        else:
+            else_counts = sorted({c for c, _ in run(node.orelse, {(0, "n")})})
+            break
+    return out, else_counts, helper_ok
+
+
 def lean_source():
     consts, branches, else_types, named = generate()
+    pcounts, else_counts, helper_counts = path_counts()
     def camel(k):
         parts = k.lower().split("_")
         return parts[0] + "".join(p.capitalize() for p in parts[1:])
@@ -58,5 +131,12 @@ def lean_source():
     L.append("def branchTypes : List (Nat × List Nat) := [%s]" % ", ".join(
         "(%d, [%s])" % (c, ", ".join(str(t if t >= 0 else 999) for t in ts)) for c, ts in branches))
     L.append("def elseTypes : List Nat := [%s]" % ", ".join(map(str, else_types)))
+    L.append("/-- per branch: the numbers of responder calls found on the control-flow paths through the branch -/")
+    L.append("def branchSendCounts : List (Nat × List Nat) := [%s]" % ", ".join(
+        "(%d, [%s])" % (c, ", ".join(map(str, ns))) for c, ns in pcounts))
+    L.append("def elseSendCounts : List Nat := [%s]" % ", ".join(map(str, else_counts)))
+    L.append("/-- the same for the helpers a branch may call instead of a responder -/")
+    L.append("def helperSendCounts : List (List Nat) := [%s]" % ", ".join(
+        "[%s]" % ", ".join(map(str, helper_counts[k])) for k in sorted(helper_counts)))
     L.append("end PV.Generated.C30")
     return "\n".join(L) + "\n"
